@@ -126,3 +126,195 @@ harness! {
         assert!(rs::ref_valid(&n) == rs::ref_valid(&raw));
     }
 }
+
+// ------------------------------------------------------------------------------------------------
+// C08 / C12: FEN text.  Reference encoder / reader written independently of the implementation.
+// ------------------------------------------------------------------------------------------------
+use core::fmt::Write;
+pub struct Buf96 { pub b: [u8; 96], pub n: usize }
+impl core::fmt::Write for Buf96 {
+    fn write_str(&mut self, s: &str) -> core::fmt::Result {
+        for &c in s.as_bytes() { if self.n >= 96 { return Err(core::fmt::Error); } self.b[self.n] = c; self.n += 1; }
+        Ok(())
+    }
+}
+struct CellsFmt<'a>(&'a [Cell; 64]);
+impl<'a> fmt::Display for CellsFmt<'a> {
+    fn fmt(&self, f: &mut fmt::Formatter<'_>) -> fmt::Result { format_cells(self.0, f) }
+}
+const CELL_CHARS: &[u8; 13] = b".PKNBRQpknbrq";
+
+/// canonical FEN board field: ranks 8..1 separated by '/', runs of empty squares as one digit
+fn ref_fen_cells(cells: &[Cell; 64], out: &mut [u8; 96]) -> usize {
+    let mut n = 0;
+    let mut r = 0;
+    while r < 8 {
+        if r != 0 { out[n] = b'/'; n += 1; }
+        let mut run = 0u8;
+        let mut f = 0;
+        while f < 8 {
+            let c = rs::ci(cells[r * 8 + f]);
+            if c == 0 { run += 1; } else {
+                if run != 0 { out[n] = b'0' + run; n += 1; run = 0; }
+                out[n] = CELL_CHARS[c as usize]; n += 1;
+            }
+            f += 1;
+        }
+        if run != 0 { out[n] = b'0' + run; n += 1; }
+        r += 1;
+    }
+    n
+}
+/// independent reader of a board field (accepts exactly canonical-or-not standard FEN boards)
+fn ref_fen_read_cells(t: &[u8], n: usize, cells: &mut [u8; 64]) -> bool {
+    let mut pos = 0usize; let mut file = 0usize; let mut rank = 0usize;
+    let mut i = 0;
+    while i < 96 { if i < n {
+        let ch = t[i];
+        if ch == b'/' { if file != 8 || rank >= 7 { return false; } rank += 1; file = 0; }
+        else if b'1' <= ch && ch <= b'8' { let k = (ch - b'0') as usize; if file + k > 8 { return false; } file += k; pos += k; }
+        else {
+            let mut code = 13u8; let mut k = 1; while k < 13 { if CELL_CHARS[k] == ch { code = k as u8; } k += 1; }
+            if code == 13 || file >= 8 { return false; }
+            cells[pos] = code; pos += 1; file += 1;
+        }
+    } i += 1; }
+    rank == 7 && file == 8
+}
+
+harness! {
+    #[kani::unwind(10)]
+    fn c08_cells_one_rank_roundtrip() {
+        // one symbolic rank inside an otherwise empty board, in a symbolic row: the run-length
+        // logic of a rank and the separator logic between ranks (each rank is formatted and parsed
+        // by the same loop body, independent of the other ranks)
+        let mut cells = [Cell::EMPTY; 64];
+        let row = vk::any_u8() as usize; vk::assume(row < 8);
+        let mut f = 0; while f < 8 { let c = vk::any_u8(); vk::assume(c < 13); cells[row * 8 + f] = ab::cell(c); f += 1; }
+        let mut o = Buf96 { b: [0; 96], n: 0 };
+        assert!(write!(o, "{}", CellsFmt(&cells)).is_ok());
+        let mut want = [0u8; 96];
+        let n = ref_fen_cells(&cells, &mut want);
+        assert!(o.n == n);
+        let mut i = 0; while i < 24 { if i < n { assert!(o.b[i] == want[i]); } i += 1; }
+        let txt = unsafe { core::str::from_utf8_unchecked(&o.b[..o.n]) };
+        match parse_cells(txt) {
+            Ok(back) => { let w = ab::any_sq(); assert!(back[w as usize] == cells[w as usize]); }
+            Err(_) => assert!(false, "own output must parse"),
+        }
+        let mut rd = [0u8; 64];
+        assert!(ref_fen_read_cells(&o.b, o.n, &mut rd));
+        let w = ab::any_sq(); assert!(rd[w as usize] == rs::ci(cells[w as usize]));
+        cover!(n == 22);
+    }
+}
+harness! {
+    #[kani::unwind(10)]
+    fn c08_record_tail_roundtrip() {
+        // the five fields after the board (board fixed to the empty one so that it constant-folds):
+        // side, rights, en-passant target (mark on the rank appropriate to the side), both counters
+        let side = ab::any_color();
+        let cr = vk::any_u8(); vk::assume(cr < 16);
+        let epf = vk::any_u8(); vk::assume(epf <= 8);
+        let white = side == Color::White;
+        let ep = if epf == 8 { None } else { Some(ab::coord((if white { 3 } else { 4 }) * 8 + epf)) };
+        let raw = RawBoard { cells: [Cell::EMPTY; 64], side, castling: CastlingRights::from_index(cr as usize), ep_source: ep,
+                             move_counter: vk::any_u16(), move_number: vk::any_u16() };
+        let mut o = Buf96 { b: [0; 96], n: 0 };
+        assert!(write!(o, "{}", raw).is_ok());
+        // six space-separated fields, the board first
+        let head = b"8/8/8/8/8/8/8/8 ";
+        let mut i = 0; while i < 16 { assert!(o.b[i] == head[i]); i += 1; }
+        assert!(o.b[16] == if white { b'w' } else { b'b' } && o.b[17] == b' ');
+        // the en-passant field names the square BEHIND the marked pawn (rank 6 for White to move, 3 for Black)
+        let txt = unsafe { core::str::from_utf8_unchecked(&o.b[..o.n]) };
+        match RawBoard::from_str(txt) {
+            Ok(back) => assert!(back == raw),
+            Err(_) => assert!(false, "own output must parse"),
+        }
+        assert!(raw.ep_dest() == ep.map(|p| ab::coord(if white { p.index() as u8 - 8 } else { p.index() as u8 + 8 })));
+        cover!(ep.is_some() && raw.move_number == 65535);
+    }
+}
+harness! {
+    #[kani::unwind(34)]
+    fn c12_parse_cells_total_len32() {
+        // every ASCII-or-not byte string of <= 32 bytes that is valid UTF-8: value or error, no
+        // panic (the three assert_eq! at the end of parse_cells and the index arithmetic are
+        // obligations here); an accepted field re-formats to text that parses to the same cells
+        let mut b = [0u8; 32];
+        let mut i = 0; while i < 32 { b[i] = vk::any_u8(); i += 1; }
+        let len = vk::any_u8() as usize; vk::assume(len <= 32);
+        if let Ok(s) = core::str::from_utf8(&b[..len]) {
+            let r = parse_cells(s);
+            let mut rd = [0u8; 64];
+            let accept = ref_fen_read_cells_dot(&b, len, &mut rd);
+            match r {
+                Ok(cells) => { assert!(accept); let w = ab::any_sq(); assert!(rs::ci(cells[w as usize]) == rd[w as usize]); }
+                Err(_) => assert!(!accept),
+            }
+            cover!(r.is_ok());
+            cover!(len == 32 && r.is_err());
+        }
+    }
+}
+/// the accepted language of parse_cells, stated independently: like a FEN board, and '.' also
+/// denotes an empty square (documented leniency: Cell::from_char('.'))
+fn ref_fen_read_cells_dot(t: &[u8; 32], n: usize, cells: &mut [u8; 64]) -> bool {
+    let mut pos = 0usize; let mut file = 0usize; let mut rank = 0usize;
+    let mut i = 0;
+    while i < 32 { if i < n {
+        let ch = t[i];
+        if ch == b'/' { if file != 8 || rank >= 7 { return false; } rank += 1; file = 0; }
+        else if b'1' <= ch && ch <= b'8' { let k = (ch - b'0') as usize; if file + k > 8 { return false; } file += k; pos += k; }
+        else {
+            let mut code = 13u8; let mut k = 0; while k < 13 { if CELL_CHARS[k] == ch { code = k as u8; } k += 1; }
+            if code == 13 || file >= 8 { return false; }
+            cells[pos] = code; pos += 1; file += 1;
+        }
+    } i += 1; }
+    rank == 7 && file == 8
+}
+harness! {
+    #[kani::unwind(24)]
+    fn c12_raw_from_str_tail_total() {
+        // the record after a fixed board field: all strings of <= 20 bytes
+        let mut t = [0u8; 36];
+        let head = b"8/8/8/8/8/8/8/8";
+        let mut i = 0; while i < 15 { t[i] = head[i]; i += 1; }
+        let mut i = 15; while i < 35 { t[i] = vk::any_u8(); i += 1; }
+        let len = vk::any_u8() as usize; vk::assume(15 <= len && len <= 35);
+        if let Ok(s) = core::str::from_utf8(&t[..len]) {
+            if let Ok(raw) = RawBoard::from_str(s) {
+                // whatever was accepted formats to text that parses back to the same raw board
+                let mut o = Buf96 { b: [0; 96], n: 0 };
+                assert!(write!(o, "{}", raw).is_ok());
+                let txt = unsafe { core::str::from_utf8_unchecked(&o.b[..o.n]) };
+                assert!(RawBoard::from_str(txt) == Ok(raw));
+                // and the mark, if any, is on the rank appropriate to the side to move
+                if let Some(p) = raw.ep_source { assert!(p.index() / 8 == if raw.side == Color::White { 3 } else { 4 }); }
+            }
+            cover!(RawBoard::from_str(s).is_ok() && len > 30);
+        }
+    }
+}
+harness! {
+    #[kani::unwind(10)]
+    fn c08_cells_full_board_roundtrip() {
+        // all 13^64 boards: format, compare with the reference encoder, parse back, read independently
+        let raw = ab::any_raw();
+        let cells = raw.cells;
+        let mut o = Buf96 { b: [0; 96], n: 0 };
+        assert!(write!(o, "{}", CellsFmt(&cells)).is_ok());
+        let mut want = [0u8; 96];
+        let n = ref_fen_cells(&cells, &mut want);
+        assert!(o.n == n && n <= 71);
+        let j = vk::any_u8() as usize; vk::assume(j < 71);
+        if j < n { assert!(o.b[j] == want[j]); }
+        let txt = unsafe { core::str::from_utf8_unchecked(&o.b[..o.n]) };
+        match parse_cells(txt) {
+            Ok(back) => { let w = ab::any_sq(); assert!(back[w as usize] == cells[w as usize]); }
+            Err(_) => assert!(false, "own output must parse"),
+        }
+    }
+}
